@@ -143,39 +143,78 @@ def _flag_value(e: ast.AST):
 
 def _p2(ctx, rep):
     f = ctx.ix.func(M + "projected_gradient_descent.ProjectedGradientDescent.set_constraint_from_standard_qt_and_option")
-    chain = [n for n in own_nodes(f.node) if isinstance(n, ast.If) and _flags_of(n.test)]
-    top = [n for n in chain if not any(n in getattr(p, "orelse", []) for p in chain)]
-    if len(top) != 1:
-        rep.undecided("P2", f, "dispatch", "expected one if/elif chain on the two constraint flags")
-        return
+    # path-sensitive reading: per control-flow path, the conditions on the two flags and the value stored to self._func_proj
+    from ..symsum import cases
     want = {(True, True): "func_calc_proj_physical_with_var", (True, False): "func_calc_proj_eq_constraint_with_var",
             (False, True): "func_calc_proj_ineq_constraint_with_var", (False, False): "proj_to_self"}
+    FLAG = {"option.on_algo_eq_constraint": "eq", "option.on_algo_ineq_constraint": "ineq"}
+    cs = cases(f)
+    if cs is None:
+        rep.undecided("P2", f, "dispatch", "too many paths")
+        return
+    from ..astutil import conjuncts
+
+    def truth(t, combo):
+        """value of a test under a flag assignment; None when it involves anything else"""
+        if isinstance(t, ast.BoolOp):
+            vs = [truth(v, combo) for v in t.values]
+            if any(v is None for v in vs):
+                return None
+            return all(vs) if isinstance(t.op, ast.And) else any(vs)
+        if isinstance(t, ast.UnaryOp) and isinstance(t.op, ast.Not):
+            v = truth(t.operand, combo)
+            return None if v is None else not v
+        c = conjuncts(t, True)
+        if c and len(c) == 1 and c[0][0] in FLAG:
+            return combo[FLAG[c[0][0]]] == c[0][1]
+        return None
+
     seen = {}
-    node = top[0]
-    covered = set()
-    while True:
-        fl = _flags_of(node.test)
-        combos = [(a, b) for a in (True, False) for b in (True, False)
-                  if all({"eq": a, "ineq": b}[k] == v for k, v in fl.items()) and (a, b) not in covered]
-        for c in combos:
-            seen[c] = node.body
-            covered.add(c)
-        if len(node.orelse) == 1 and isinstance(node.orelse[0], ast.If) and _flags_of(node.orelse[0].test):
-            node = node.orelse[0]
+    clash = []
+    for c in cs:
+        if c.raised:
             continue
-        rest = [(a, b) for a in (True, False) for b in (True, False) if (a, b) not in covered]
-        for c in rest:
-            seen[c] = node.orelse
-        break
+        st = c.attrs.get("self._func_proj")
+        for a in (True, False):
+            for b in (True, False):
+                combo = {"eq": a, "ineq": b}
+                feasible, other = True, False
+                for t, pol, node in c.guards:
+                    if t in FLAG:
+                        if combo[FLAG[t]] != pol:
+                            feasible = False
+                    elif t.startswith("?"):
+                        v = truth(node, combo)
+                        if v is None:
+                            other = True
+                        elif v != pol:
+                            feasible = False
+                    else:
+                        other = True
+                if not feasible:
+                    continue
+                if st is None and other:
+                    continue            # a path that is not about the flags (e.g. the early exit of a configured object, see C13 N6)
+                val = st[0] if st is not None else None
+                if (a, b) in seen:
+                    prev = seen[(a, b)][0]
+                    if (prev is None) != (val is None) or (prev is not None and ast.dump(prev) != ast.dump(val)):
+                        clash.append((a, b))
+                seen.setdefault((a, b), (val, st[1] if st is not None else None))
+    if not seen:
+        rep.undecided("P2", f, "dispatch", "no path stores self._func_proj under conditions on the two constraint flags")
+        return
+    if clash:
+        rep.undecided("P2", f, "dispatch", "flag combination(s) %s select different projections on different paths" % sorted(set(clash)))
+        return
     defs = single_defs(f)
-    for combo, body in sorted(seen.items(), reverse=True):
+    for combo, (val, stmt) in sorted(seen.items(), reverse=True):
         con = "flags (eq=%s, ineq=%s)" % combo
-        st = [s for s in body if isinstance(s, ast.Assign) and any(unparse(t) == "self._func_proj" for t in s.targets)]
-        if len(st) != 1 or not isinstance(st[0].value, ast.Call):
-            rep.violation("P2", f, con, "this flag combination does not set the projection", node=body[0] if body else f.node)
+        if val is None or not isinstance(val, ast.Call):
+            rep.violation("P2", f, con, "this flag combination does not set the projection", node=stmt if stmt is not None else f.node)
             continue
-        call = st[0].value
-        name = (dotted(call.func) or "").split(".")[-1]
+        call = val
+        name = call.func.attr if isinstance(call.func, ast.Attribute) else (dotted(call.func) or "")
         if name != want[combo]:
             rep.violation("P2", f, con, "selects %s, the flags call for %s" % (name, want[combo]), node=call)
             continue
@@ -205,7 +244,7 @@ def _p2(ctx, rep):
             continue
         rep.holds("P2", f, con, "-> %s" % name, node=call)
     if len(seen) != 4:
-        rep.violation("P2", f, "dispatch", "only %d of the 4 flag combinations are handled" % len(seen), node=top[0])
+        rep.violation("P2", f, "dispatch", "only %d of the 4 flag combinations are handled" % len(seen), node=f.node)
 
 
 def _flags_of(t: ast.AST):
@@ -330,9 +369,22 @@ def _p3(ctx, rep, name, f: Func):
               % [unparse(n.args[0]) if n.args else None for n in res], node=res[0] if res else f.node)
     # shift: x_prev = x_next at loop head
     shift = [s for s in lp.body if isinstance(s, ast.If) and unparse(s.test) == "x_next is not None"]
-    sh = {unparse(a.targets[0]): unparse(a.value) for s in shift for a in s.body if isinstance(a, ast.Assign)}
-    rep.check(sh.get("x_prev") == "x_next", "P3", f, "shift", "x_prev := x_next before each step",
-              "the new iterate is not carried into the next step (%s)" % sh, node=shift[0] if shift else lp)
+    sh = {}
+    for s_ in shift:
+        for a in s_.body:
+            if isinstance(a, ast.Assign) and len(a.targets) == 1:
+                t_, v_ = a.targets[0], a.value
+                if isinstance(t_, ast.Tuple) and isinstance(v_, ast.Tuple) and len(t_.elts) == len(v_.elts):
+                    # simultaneous assignment: every right side is read before any target is written
+                    for x_, y_ in zip(t_.elts, v_.elts):
+                        sh[unparse(x_)] = unparse(y_)
+                else:
+                    sh[unparse(t_)] = unparse(v_)
+    if not shift:
+        rep.undecided("P3", f, "shift", "no `if x_next is not None:` block at the head of the loop")
+    else:
+        rep.check(sh.get("x_prev") == "x_next", "P3", f, "shift", "x_prev := x_next before each step",
+                  "the new iterate is not carried into the next step (%s)" % sh, node=shift[0] if shift else lp)
 
 
 class _Abs(ast.NodeTransformer):
